@@ -379,6 +379,10 @@ def run(chk, replay):
                 "flavour/W); non-trivial = any order other than submission order, or W > 1, or serial vs parallel")
     chk.assumptions = ["the in-process scheduled pool pickles arguments and results like a process boundary does",
                        ".npz containers are compared by member payload (the zip header carries a timestamp)"]
+    if replay and replay["scenario"].get("recipe_history"):
+        from checks import c11
+        chk.executed("replay")
+        return c11.recipe_histories(chk, only=replay["scenario"]["recipe_history"])
     r = chk.add_tlc(tlc.run("MC_C12", {"INIT": "Init", "NEXT": "Next", "CONSTANTS": {"MaxN": 4, "MaxW": 4, "Gather": '"by_task"'},
                                        "INVARIANTS": ["ScheduleFree", "PoolOK", "Emit"]}, timeout=1200), "all interleavings n<=4, W<=4")
     if r.violated:
@@ -451,6 +455,10 @@ def run(chk, replay):
                 chk.violation(util.sig_str("inputs", n), "an input was modified by one of the runs", {"tool": "any", "n": n})
     if not replay or replay["scenario"].get("real_pool"):
         real_pool_phase(chk, D, names if not replay else [replay["scenario"]["tool"]], refs)
+    if not replay:
+        # serial and parallel cooks of two recipe files of the same name in one process, with chef's cached pool (RecipeCache.tla)
+        from checks import c11
+        c11.recipe_histories(chk)
     # pool usage traces must be behaviours of Pool.tla
     tf = os.path.join(chk.scratch, "pool_trace.ndjson")
     with open(tf, "w") as f:
